@@ -349,6 +349,10 @@ func nonNegative(v *Val, conds []Cond) bool {
 		return len(v.Args) > 0
 	case "loopvar":
 		return len(v.Args) == 1 && nonNegative(v.Args[0], conds)
+	case "loopout":
+		if up, _ := v.Aux.(string); up == "up" && len(v.Args) >= 1 && nonNegative(v.Args[0], conds) {
+			return true // an accumulator of lengths that started non-negative
+		}
 	case "binop":
 		if v.Name == "/" || v.Name == ">>" {
 			// a non-negative value divided by a positive constant (shifted right) stays non-negative
